@@ -59,6 +59,20 @@ func busMachine(state string, repo string) (*machine.M, ref.CartKind) {
 		for i := 0; i < 40; i++ {
 			m.Hardware()
 		}
+	case "apu-busy":
+		// all four channels playing, every length counter one clock from expiry with length counting off,
+		// second half of a frame-sequencer period (where enabling length clocks the counter at once)
+		for _, w := range [][2]uint16{{0xff26, 0x80}, {0xff25, 0xff}, {0xff24, 0x77}, {0xff11, 0x3f}, {0xff16, 0x3f}, {0xff1b, 0xff}, {0xff20, 0x3f},
+			{0xff12, 0xf0}, {0xff17, 0xf0}, {0xff1a, 0x80}, {0xff1c, 0x20}, {0xff21, 0xf0}, {0xff13, 0x00}, {0xff18, 0x00}, {0xff1d, 0x00}, {0xff22, 0x00},
+			{0xff14, 0x87}, {0xff19, 0x87}, {0xff1e, 0x87}, {0xff23, 0x80}} {
+			m.Map.Write(w[0], uint8(w[1]))
+		}
+		for i := 0; i < 5000 && m.A.VGet().FrameSeqTicks%2 == 0; i++ {
+			m.Hardware()
+		}
+		for i := 0; i < 7; i++ {
+			m.Hardware()
+		}
 	case "dma-in-flight":
 		m.Map.Write(0xff46, 0xc1)
 		for i := 0; i < 40; i++ {
@@ -259,6 +273,7 @@ type c07Case struct {
 	Step  int      `json:"step,omitempty"`
 	Vals  []uint8  `json:"vals"`
 	Addrs []uint16 `json:"addrs,omitempty"`
+	Fresh bool     `json:"fresh,omitempty"` // rebuild the machine state before every single write
 }
 
 // allowedChange reports whether a write to w may change what is read at address x.
@@ -285,13 +300,40 @@ func allowedChange(w, x uint16, kind ref.CartKind, ch3On bool) bool {
 	case w == 0xff26:
 		return (x >= 0xff10 && x <= 0xff26) || (x >= 0xff30 && x <= 0xff3f)
 	case w == 0xff10, w == 0xff12, w == 0xff17, w == 0xff21, w == 0xff14, w == 0xff19, w == 0xff23:
-		return x == 0xff26
+		return x == 0xff26 // only the written channel's status bit: see allowedBits
 	case w == 0xff1a, w == 0xff1e:
 		return x == 0xff26 || (x >= 0xff30 && x <= 0xff3f)
 	case w >= 0xff30 && w <= 0xff3f:
 		return ch3On && x >= 0xff30 && x <= 0xff3f
 	}
 	return false
+}
+
+// allowedBits narrows allowedChange to bits: a channel's sweep/envelope/DAC/trigger register may change
+// only that channel's status bit in NR52.
+func allowedBits(w, x uint16) uint8 {
+	if x != 0xff26 || w == 0xff26 {
+		return 0xff
+	}
+	switch ch := chanOfReg(w); ch {
+	case 0, 1, 2, 3:
+		return 1 << uint(ch)
+	}
+	return 0xff
+}
+
+func chanOfReg(w uint16) int {
+	switch {
+	case w >= 0xff10 && w <= 0xff14:
+		return 0
+	case w >= 0xff16 && w <= 0xff19:
+		return 1
+	case w >= 0xff1a && w <= 0xff1e:
+		return 2
+	case w >= 0xff20 && w <= 0xff23:
+		return 3
+	}
+	return -1
 }
 
 func c07Check(l *explore.Local, repo string, c c07Case) *explore.Fail {
@@ -313,15 +355,21 @@ func c07Check(l *explore.Local, repo string, c c07Case) *explore.Fail {
 			addrs = append(addrs, uint16(a))
 		}
 	}
+	first := true
 	for _, w := range addrs {
 		for _, v := range c.Vals {
+			if c.Fresh && !first {
+				m, kind = busMachine(c.State, repo) // every write starts from the named state itself
+				snap(&prev)
+			}
+			first = false
 			ch3On := prev[0xff26]&0x04 != 0
 			m.Map.Write(w, v)
 			snap(&cur)
 			l.Trans(1)
 			ch3On = ch3On || cur[0xff26]&0x04 != 0
 			for x := 0; x < 0x10000; x++ {
-				if cur[x] != prev[x] && !allowedChange(w, uint16(x), kind, ch3On) {
+				if cur[x] != prev[x] && (!allowedChange(w, uint16(x), kind, ch3On) || (cur[x]^prev[x])&^allowedBits(w, uint16(x)) != 0) {
 					return explore.Failf(fmt.Sprintf("a write to %s changes an unrelated location", c07Region(w)),
 						"state %s: %04x<-%02x changed %04x from %02x to %02x", c.State, w, v, x, prev[x], cur[x])
 				}
@@ -390,12 +438,18 @@ func init() {
 	})
 	register("C07", "model_checking", func(c *Ctx) {
 		if c.R != nil {
-			c.R.Rule = "for each machine state and each written (address, value): the complete 64 KiB space is read before and after one Mapper.Write (no machine cycle elapses) and every changed address must be in the documented effect set of the written address (own value and mirror; ROM/RAM windows for cartridge control writes; DIV; LCDC -> STAT/LY; DMA -> OAM window; NR52 -> all sound registers and wave RAM; envelope/trigger/sweep/DAC registers -> NR52 status; NR30/NR34 -> wave RAM window); the new values themselves belong to C06/C08/C09/C18/C19"
+			c.R.Rule = "for each machine state and each written (address, value): the complete 64 KiB space is read before and after one Mapper.Write (no machine cycle elapses) and every changed address must be in the documented effect set of the written address (own value and mirror; ROM/RAM windows for cartridge control writes; DIV; LCDC -> STAT/LY; DMA -> OAM window; NR52 -> all sound registers and wave RAM; envelope/trigger/sweep/DAC registers -> the status bit of their own channel in NR52; NR30/NR34 -> wave RAM window); the new values themselves belong to C06/C08/C09/C18/C19"
 			c.R.Assumptions = []string{"quick: every address FE00-FFFF, every 0x100-aligned address +-1 elsewhere and every region boundary +-1; thorough: all 65,536 addresses"}
 		}
 		vals := []uint8{0x00, 0xff, 0x55, 0xaa, 0x01, 0x80, 0x0a, 0xe5}
-		explore.Product(c.R, "write-effect-sets", explore.PartOpt{Bound: "single write, full-space diff", Domain: "7 machine states"},
+		explore.Product(c.R, "write-effect-sets", explore.PartOpt{Bound: "single write, full-space diff", Domain: "7 machine states; plus FF10-FF3F x 8 values each written from a busy APU (all channels playing, length counters at 1, second half of a frame-sequencer period)"},
 			func(yield func(c07Case) bool) {
+				// sound registers from a busy APU, every write from the state itself
+				for lo := 0xff10; lo < 0xff40; lo += 4 {
+					if !yield(c07Case{State: "apu-busy", Lo: lo, Hi: lo + 3, Vals: []uint8{0x00, 0xff, 0x40, 0x80, 0xc0, 0x08, 0x7f, 0x3f}, Fresh: true}) {
+						return
+					}
+				}
 				for _, s := range busStates {
 					// FE00-FFFF completely
 					for lo := 0xfe00; lo < 0x10000; lo += 0x40 {
